@@ -14,6 +14,7 @@ attribute, a memoising decorator, a mutable default argument.  This tool reads t
   memo        lru_cache / cache / memo decorators
   default     mutable default argument
   counter     next(x.attr): an iterator stored on an object or class is advanced
+  identity    a class defines __eq__/__hash__/ordering/pickling itself (identity of the objects kept in sets and dicts)
 
 The result is compared (by vp/props/c04.py, on every run) with the committed, reviewed inventory
 vp/shared_state_expected.json.  Every entry there carries the reason why it cannot couple two
@@ -150,6 +151,10 @@ def audit_file(path, rel):
                     if isinstance(t, ast.Name) and getattr(m, 'value', None) is not None and is_mutable_value(m.value):
                         out.append(('classattr', rel, '%s.%s' % (n.name, t.id), 'class-body mutable %s' % (call_name(m.value) or type(m.value).__name__)))
                 if isinstance(m, (ast.FunctionDef, ast.AsyncFunctionDef)):
+                    if m.name in ('__eq__', '__ne__', '__hash__', '__lt__', '__le__', '__gt__', '__ge__', '__reduce__', '__getstate__', '__setstate__', '__copy__', '__deepcopy__'):
+                        # object identity / ordering defined by the class: sets and dicts of such objects (memory sets,
+                        # subnet sets) then depend on whatever these methods read, e.g. a counter shared between jobs
+                        out.append(('identity', rel, '%s.%s' % (n.name, m.name), 'defined'))
                     scan_function(m, n.name + '.', True)
                     # nested functions are walked by ast.walk inside scan_function
     return out
